@@ -1,0 +1,38 @@
+//go:build verif
+
+package internal
+
+import (
+	"fmt"
+
+	"github.com/lyraproj/pcore/px"
+)
+
+func verifExport(ms []mismatch) []px.VerifMismatch {
+	out := make([]px.VerifMismatch, len(ms))
+	for i, m := range ms {
+		v := px.VerifMismatch{Class: string(m.class())}
+		for _, pe := range m.path() {
+			v.Path = append(v.Path, px.VerifPathElement{Type: string(pe.pathType), Key: pe.key})
+		}
+		switch km := m.(type) {
+		case *missingKey:
+			v.Key = km.key
+		case *extraneousKey:
+			v.Key = km.key
+		case *unresolvedTypeReference:
+			v.Key = km.key
+		}
+		if ea, ok := m.(expectedActualMismatch); ok {
+			v.Expected, v.Actual = ea.expected(), ea.actual()
+		}
+		out[i] = v
+	}
+	return out
+}
+
+func init() {
+	px.VerifDescribe = func(name string, expected, actual px.Type) []px.VerifMismatch {
+		return verifExport(describe(expected, actual, []*pathElement{{fmt.Sprintf(`function %s:`, name), subject}}))
+	}
+}
